@@ -284,6 +284,272 @@ def nullifKernel {α : Type} (a : Arr α) (r : List (Option Bool)) : Option (Arr
   let rm := prepMask r
   some { vals := a.vals, nulls := some (List.zipWith (fun l m => l && !m) (validityOf a) rm) }
 
+
+/-! ### variable-width (byte) arrays: filter.rs `FilterBytes`, take.rs `take_bytes`,
+concat.rs `concat_bytes`, interleave.rs `interleave_bytes` -/
+
+/-- physical `GenericByteArray`: `offsets` (len + 1 entries, absolute positions in `data`,
+the first one need not be 0 for a sliced array), the value bytes, optional validity -/
+structure BArr where
+  offsets : List Nat
+  data : List Nat
+  nulls : Option (List Bool)
+
+def BArr.len (b : BArr) : Nat := b.offsets.length - 1
+
+/-- `array.value(i)`: bytes `[offsets[i], offsets[i+1])` -/
+def slotOf (offsets data : List Nat) (i : Nat) : List Nat :=
+  copyRange data (offsets.getD i 0, offsets.getD (i + 1) 0)
+
+def BArr.slots (b : BArr) : List (List Nat) := (List.range b.len).map (slotOf b.offsets b.data)
+
+/-- the array of slot values with the same validity: byte kernels are compared with the
+primitive kernels on this view -/
+def BArr.view (b : BArr) : Arr (List Nat) := { vals := b.slots, nulls := b.nulls }
+
+def BArr.decode (b : BArr) : List (Option (List Nat)) := b.view.decode
+
+/-- `FilterBytes::extend_offsets_idx`: `cur_offset += len(idx); push(cur_offset)` -/
+def extendOffsetsIdx (src : List Nat) : List Nat → Nat → List Nat
+  | [], _ => []
+  | i :: is, cur =>
+    let c := cur + (src.getD (i + 1) 0 - src.getD i 0)
+    c :: extendOffsetsIdx src is c
+
+/-- `FilterBytes::extend_idx`: `dst_values.extend_from_slice(&src_values[start..end])` per index -/
+def extendIdx (src data : List Nat) (idx : List Nat) : List Nat :=
+  idx.flatMap (fun i => copyRange data (src.getD i 0, src.getD (i + 1) 0))
+
+/-- `FilterBytes::extend_offsets_slices`: the same per-row offset pushes, row by row inside each run -/
+def extendOffsetsSlices (src : List Nat) (sl : List (Nat × Nat)) : List Nat :=
+  extendOffsetsIdx src (sl.flatMap (fun se => (List.range (se.2 - se.1)).map (· + se.1))) 0
+
+/-- `FilterBytes::extend_slices`: one contiguous copy `src_values[off[start]..off[end]]` per run -/
+def extendSlices (src data : List Nat) (sl : List (Nat × Nat)) : List Nat :=
+  sl.flatMap (fun se => copyRange data (src.getD se.1 0, src.getD se.2 0))
+
+/-- `filter_bytes(array, predicate)` (strategies `All`/`None` never reach it) -/
+def filterBytes (b : BArr) (p : Predicate) : BArr :=
+  let od : List Nat × List Nat :=
+    match p.strategy with
+    | .slicesIterator => (extendOffsetsSlices b.offsets (slicesOf p.filter), extendSlices b.offsets b.data (slicesOf p.filter))
+    | .slices sl => (extendOffsetsSlices b.offsets sl, extendSlices b.offsets b.data sl)
+    | .indexIterator => (extendOffsetsIdx b.offsets (indexIter p.filter p.count) 0, extendIdx b.offsets b.data (indexIter p.filter p.count))
+    | .indices ix => (extendOffsetsIdx b.offsets ix 0, extendIdx b.offsets b.data ix)
+    | _ => ([], [])
+  { offsets := 0 :: od.1, data := od.2, nulls := filterNulls b.nulls p }
+
+/-- `Array::slice(0, count)` of a byte array (strategy `All`): offsets are shared, not rebased -/
+def BArr.slice0 (b : BArr) (n : Nat) : BArr :=
+  { offsets := b.offsets.take (n + 1), data := b.data, nulls := b.nulls.map (·.take n) }
+
+/-- `filter_array` for a byte array; `none` = rejected predicate -/
+def filterBytesKernel (useSlices : Nat → Nat → Bool) (opt : Bool) (b : BArr) (mask : List (Option Bool)) : Option BArr :=
+  let pr := Predicate.new useSlices mask
+  let p := if opt then pr.optimize else pr
+  if p.filter.length > b.len then none else
+  match p.strategy with
+  | .none => some { offsets := [0], data := [], nulls := none }
+  | .all => some (b.slice0 p.count)
+  | _ => some (filterBytes b p)
+
+/-- `take_bytes`, fast path (no null in the output): offsets from the running capacity, bytes
+copied per index.  `none` = panic (index out of range). -/
+def takeBytesDense (b : BArr) (idx : List Int) : Option (List Nat × List Nat) :=
+  if idx.all (fun i => decide (0 ≤ i) && decide (i.toNat < b.len)) then
+    let ix := idx.map Int.toNat
+    some (0 :: extendOffsetsIdx b.offsets ix 0, extendIdx b.offsets b.data ix)
+  else none
+
+/-- `take_bytes`, nullable path, pass 1 as written: `offsets` pre-filled with zeros, valid output
+positions `i` back-fill `offsets[last_filled+1..=i]` with the current capacity and set
+`offsets[i+1]`; state = (offsets, capacity, last_filled, ranges). -/
+def takeBytesSparseLoop (b : BArr) (idx : List Int) :
+    List Nat → List Nat × Nat × Nat × List (Nat × Nat) → Option (List Nat × Nat × Nat × List (Nat × Nat))
+  | [], st => some st
+  | i :: is, (offs, cap, lastFilled, ranges) =>
+    match idx[i]? with
+    | none => none
+    | some raw =>
+      if raw < 0 ∨ raw.toNat ≥ b.len then none else
+      let index := raw.toNat
+      let start := b.offsets.getD index 0
+      let stop := b.offsets.getD (index + 1) 0
+      -- offsets[last_filled + 1 ..= i].fill(current_offset)
+      let offs := if lastFilled < i then
+          offs.mapIdx (fun k o => if lastFilled + 1 ≤ k ∧ k ≤ i then cap else o) else offs
+      let cap' := cap + (stop - start)
+      let offs := offs.set (i + 1) cap'
+      takeBytesSparseLoop b idx is (offs, cap', i + 1, ranges ++ [(start, stop)])
+
+/-- `take_bytes`, nullable path: `outNulls` = validity of the output (from `take_nulls`) -/
+def takeBytesSparse (b : BArr) (idx : List Int) (outNulls : List Bool) : Option (List Nat × List Nat) :=
+  let n := idx.length
+  let validIdx := (List.range n).filter (fun i => outNulls.getD i false)
+  match takeBytesSparseLoop b idx validIdx (List.replicate (n + 1) 0, 0, 0, []) with
+  | none => none
+  | some (offs, cap, lastFilled, ranges) =>
+    -- offsets[last_filled + 1..].fill(final_offset)
+    let offs := offs.mapIdx (fun k o => if lastFilled + 1 ≤ k then cap else o)
+    some (offs, ranges.flatMap (copyRange b.data))
+
+/-- `take_bytes(array, indices)`; `none` = panic -/
+def takeBytes (b : BArr) (idx : IdxArr) : Option BArr :=
+  if idx.vals.isEmpty then some { offsets := [0], data := [], nulls := none } else
+  match takeNulls b.nulls idx with
+  | none => none
+  | some nulls =>
+    match nullsIfAny nulls with
+    | none => (takeBytesDense b idx.vals).map (fun od => { offsets := od.1, data := od.2, nulls := nulls })
+    | some outNulls => (takeBytesSparse b idx.vals outNulls).map (fun od => { offsets := od.1, data := od.2, nulls := nulls })
+
+/-- `concat_bytes` = `GenericByteBuilder::append_array` per input: offsets shifted by
+`next_offset - offsets[0]`, bytes `[offsets[0], offsets[len])` appended; empty inputs skipped -/
+def concatBytesStep (acc : List Nat × List Nat × List Bool) (b : BArr) : List Nat × List Nat × List Bool :=
+  if b.len = 0 then acc else
+  let next := acc.1.getLastD 0
+  let first := b.offsets.getD 0 0
+  let last := b.offsets.getD b.len 0
+  (acc.1 ++ (b.offsets.drop 1).map (fun o => o + next - first),
+   acc.2.1 ++ copyRange b.data (first, last),
+   acc.2.2 ++ (match b.nulls with | some n => n | none => List.replicate b.len true))
+
+def concatBytes (arrs : List BArr) : BArr :=
+  let r := arrs.foldl concatBytesStep ([0], [], [])
+  { offsets := r.1, data := r.2.1, nulls := finishNulls r.2.2 }
+
+/-- `interleave_bytes`; `none` = panic -/
+def interleaveBytes (arrs : List BArr) (idx : List (Nat × Nat)) : Option BArr :=
+  if idx.isEmpty then some { offsets := [0], data := [], nulls := none } else
+  let hasNulls := arrs.any (fun a => match a.nulls with | some b => decide (nullCount b ≠ 0) | none => false)
+  match idx.mapM (fun p => (arrs[p.1]?).bind (fun a => if p.2 < a.len then some (slotOf a.offsets a.data p.2) else none)),
+        idx.mapM (fun p => (arrs[p.1]?).bind (fun a => (match a.nulls with | some n => n | none => List.replicate a.len true)[p.2]?)) with
+  | some sl, some n =>
+    some { offsets := 0 :: (sl.foldl (fun (acc : List Nat × Nat) s => (acc.1 ++ [acc.2 + s.length], acc.2 + s.length)) ([], 0)).1,
+           data := sl.flatten, nulls := if hasNulls then some n else none }
+  | _, _ => none
+
+/-! ### fixed-size binary: `filter_fixed_size_binary`, `take_fixed_size_binary` -/
+
+/-- value bytes of slot `i` of a `FixedSizeBinary(w)` buffer -/
+def fsbSlot (w : Nat) (data : List Nat) (i : Nat) : List Nat := copyRange data (i * w, (i + 1) * w)
+
+/-- `filter_fixed_size_binary`: byte ranges `[start*w, end*w)` per run / `[i*w, (i+1)*w)` per index -/
+def filterFsb (w : Nat) (data : List Nat) (nulls : Option (List Bool)) (p : Predicate) : List Nat × Option (List Bool) :=
+  let d := match p.strategy with
+    | .slicesIterator => (slicesOf p.filter).flatMap (fun se => copyRange data (se.1 * w, se.2 * w))
+    | .slices sl => sl.flatMap (fun se => copyRange data (se.1 * w, se.2 * w))
+    | .indexIterator => (indexIter p.filter p.count).flatMap (fsbSlot w data)
+    | .indices ix => ix.flatMap (fsbSlot w data)
+    | _ => []
+  (d, filterNulls nulls p)
+
+/-- `take_fixed_size_binary` (`take_fixed_size::<N>` and the dynamic-length variant agree):
+a null index slot contributes `w` zero bytes; validity = `take_nulls(values) ∪ indices.nulls` -/
+def takeFsb (w : Nat) (data : List Nat) (n : Nat) (nulls : Option (List Bool)) (idx : IdxArr) : Option (List Nat × Option (List Bool)) :=
+  let pairs := match idx.nulls with
+    | some v => List.zip idx.vals v
+    | none => idx.vals.map (fun i => (i, true))
+  match pairs.mapM (fun (iv : Int × Bool) =>
+          if iv.2 then (if 0 ≤ iv.1 ∧ iv.1.toNat < n then some (fsbSlot w data iv.1.toNat) else none)
+          else some (if 0 ≤ iv.1 ∧ iv.1.toNat < n ∧ (nullsIfAny idx.nulls).isSome ∧ w ∈ [1, 2, 4, 8, 16]
+                     then fsbSlot w data iv.1.toNat else List.replicate w 0)),
+        takeNulls nulls idx with
+  | some d, some vn =>
+    let a := match vn with | some x => x | none => List.replicate idx.vals.length true
+    let b := match idx.nulls with | some x => x | none => List.replicate idx.vals.length true
+    let u := List.zipWith (· && ·) a b
+    some (d.flatten, if vn.isNone ∧ idx.nulls.isNone then none else some u)
+  | _, _ => none
+
+/-- `take_value_indices_from_fixed_size_list` (with the in-kernel bounds test): child indices
+`[index*len, (index+1)*len)` per valid index, `len` nulls per null index; `none` = `ComputeError` -/
+def takeValueIndicesFsl (listLen size : Nat) (idx : List (Option Int)) : Option (List (Option Nat)) :=
+  (idx.mapM (fun (x : Option Int) =>
+    match x with
+    | none => some (List.replicate size (none : Option Nat))
+    | some i => if i < 0 ∨ i.toNat ≥ listLen then none
+                else some ((List.range size).map (fun j => some (i.toNat * size + j))))).map List.flatten
+
+/-! ### run-end encoded: `filter_run_end_array` -/
+
+/-- `RunEndBuffer::get_physical_index(i)`: first run whose end exceeds `offset + i` -/
+def physIndex (ends : List Nat) (offset i : Nat) : Nat := (ends.takeWhile (fun e => e ≤ offset + i)).length
+
+/-- the `collect_bool` closure of `filter_run_end_array`, run by run: `(count, keep)` per physical run -/
+def reeLoop (offset : Nat) (f : List Bool) : List Nat → Nat → Nat → List (Nat × Bool)
+  | [], _, _ => []
+  | e :: es, start, count =>
+    let stop := min (e - offset) f.length
+    let seg := (f.drop start).take (stop - start)
+    let count' := count + countSet seg
+    (count', seg.any id) :: reeLoop offset f es stop count'
+
+/-- `filter_run_end_array`: new run ends + the predicate applied to the physical values
+(`ends`/`vals` = physical runs, `offset`/`len` = logical slice, `f` = prepared mask) -/
+def filterRee {α : Type} [Inhabited α] (useSlices : Nat → Nat → Bool) (ends : List Nat) (vals : Arr α)
+    (offset len : Nat) (f : List Bool) : Option (List Nat × Arr α) :=
+  let sp := if offset = 0 ∨ len = 0 then 0 else physIndex ends offset 0
+  let ep := if len = 0 then 0 else physIndex ends offset (len - 1)
+  let physLen := ep - sp + 1
+  let steps := reeLoop offset f ((ends.drop sp).take physLen) 0 0
+  let newEnds := (steps.filter (·.2)).map (·.1)
+  let pred := steps.map (fun s => some s.2)
+  (filterKernel useSlices false (vals.slice sp physLen) pred).map (fun v => (newEnds, v))
+
+/-! ### zip.rs / merge.rs -/
+
+/-- rows `[a, b)` of an operand: a scalar repeats its single row -/
+def operandRows {α : Type} (rows : List α) (scalar : Bool) (a b : Nat) : List α :=
+  if scalar then (List.replicate (b - a) (rows.head?)).filterMap id else copyRange rows (a, b)
+
+/-- `zip_impl`: truthy runs from `SlicesIterator`, gaps (and the tail) from falsy -/
+def zipRun {α : Type} (t : List α) (ts : Bool) (f : List α) (fs : Bool) (n : Nat) : List (Nat × Nat) → Nat → List α
+  | [], filled => if filled < n then operandRows f fs filled n else []
+  | (s, e) :: rest, filled =>
+    (if s > filled then operandRows f fs filled s else []) ++ operandRows t ts s e ++ zipRun t ts f fs n rest e
+
+def zipModel {α : Type} (mask : List (Option Bool)) (t : List α) (ts : Bool) (f : List α) (fs : Bool) : List α :=
+  zipRun t ts f fs mask.length (slicesOf (prepMask mask)) 0
+
+/-- `PrimitiveScalarImpl::create_output` (both operands scalars of a primitive type) -/
+def zipScalars {α : Type} [Inhabited α] (mask : List (Option Bool)) (t f : Option α) : Arr α :=
+  let p := prepMask mask
+  match t, f with
+  | some tv, some fv => { vals := p.map (fun b => if b then tv else fv), nulls := none }
+  | some tv, none => { vals := List.replicate p.length tv, nulls := some p }
+  | none, some fv => { vals := List.replicate p.length fv, nulls := some (p.map (!·)) }
+  | none, none => { vals := List.replicate p.length default, nulls := some (List.replicate p.length false) }
+
+/-- `merge`: like `zip_impl` but each operand is consumed sequentially (`truthy_offset`/`falsy_offset`) -/
+def mergeRun {α : Type} (t : List α) (ts : Bool) (f : List α) (fs : Bool) (n : Nat) :
+    List (Nat × Nat) → Nat → Nat → Nat → List α
+  | [], filled, _, fo => if filled < n then operandRows f fs (if fs then filled else fo) (if fs then n else fo + (n - filled)) else []
+  | (s, e) :: rest, filled, to, fo =>
+    let gap := if s > filled then s - filled else 0
+    (if s > filled then operandRows f fs fo (fo + gap) else []) ++ operandRows t ts to (to + (e - s))
+      ++ mergeRun t ts f fs n rest e (to + (e - s)) (fo + gap)
+
+def mergeModel {α : Type} (mask : List (Option Bool)) (t : List α) (ts : Bool) (f : List α) (fs : Bool) : List α :=
+  mergeRun t ts f fs mask.length (slicesOf (prepMask mask)) 0 0 0
+
+/-- `merge_n`: maximal runs of equal indices, each copied as one range; `take_offsets` per array -/
+def mergeNRun {α : Type} (arrs : List (List (Option α))) : Nat → List (Option Nat) → List Nat → Option (List (Option α))
+  | 0, _, _ => some []
+  | _, [], _ => some []
+  | fuel + 1, ix :: rest, offs =>
+    let runLen := 1 + (rest.takeWhile (· == ix)).length
+    let rest' := rest.drop (runLen - 1)
+    match ix with
+    | none => (mergeNRun arrs fuel rest' offs).map (List.replicate runLen none ++ ·)
+    | some k =>
+      let start := offs.getD k 0
+      match arrs[k]? with
+      | none => none
+      | some a =>
+        if start + runLen > a.length then none else
+        (mergeNRun arrs fuel rest' (offs.set k (start + runLen))).map (copyRange a (start, start + runLen) ++ ·)
+
 /-! ### coalesce.rs -/
 
 /-- configuration of a `BatchCoalescer` -/
